@@ -204,6 +204,38 @@ def roworder_histories():
     return hs
 
 
+def overwrite_histories():
+    """The drive manager constructed with overwrite = true (as `operation initialize` and `archive --overwrite` do): only its FIRST
+    writer may clear the drive; every later call of the same instance appends."""
+    hs = []
+    for k, rs in enumerate((20, 3, 1)):
+        calls = [{"op": "initialize"}, {"op": "mkdir", "name": "/a", "perm": 0o755}, {"op": "createfile", "name": "/a/f", "blob": 0}, {"op": "mkdir", "name": "/b", "perm": 0o700},
+                 {"op": "rename", "name": "/a/f", "name2": "/b/g"}, {"op": "chmod", "name": "/b/g", "perm": 0o600}, {"op": "createfile", "name": "/a/h", "blob": 1},
+                 {"op": "remove", "name": "/a/h"}, {"op": "mkdirall", "name": "/c/d/e", "perm": 0o755}, {"op": "removeall", "name": "/c"}]
+        hs.append({"config": {"rs": rs, "cache": "file", "overwrite": True}, "blobs": [{"seed": 1, "len": 700}, {"seed": 2, "len": 10}], "obs": ["rows", "tree", "tape", "prefix"],
+                   "calls": calls, "_scenario": "overwrite-manager:%d" % rs})
+    return hs
+
+
+def multibyte_histories():
+    """Directories whose names have more bytes than characters, with short-named subdirectories that hold entries: listings and
+    depth computations that mix byte and character counts go wrong exactly there."""
+    hs = []
+    k = 0
+    for d in ("\u65e5\u672c", "\u00e9\u00e9", "a\u20ac", "p/\u65e5"):
+        D = "/" + d
+        calls = [{"op": "initialize"}]
+        if "/" in d:
+            calls.append({"op": "mkdir", "name": "/p", "perm": 0o755})
+        calls += [{"op": "mkdir", "name": D, "perm": 0o755}, {"op": "mkdir", "name": D + "/a", "perm": 0o755}, {"op": "createfile", "name": D + "/a/b", "blob": 1},
+                  {"op": "mkdirall", "name": D + "/a/c/e", "perm": 0o755}, {"op": "createfile", "name": D + "/readme", "blob": 0}, {"op": "mkdir", "name": D + "/archive", "perm": 0o755},
+                  {"op": "createfile", "name": D + "/archive/x", "blob": 1}, {"op": "remove", "name": D + "/a/b"}, {"op": "remove", "name": D + "/a"}, {"op": "rename", "name": D + "/a", "name2": D + "/z"},
+                  {"op": "removeall", "name": D + "/z/c"}, {"op": "remove", "name": D + "/z"}, {"op": "remove", "name": D}]
+        hs.append({"config": {"rs": [20, 3, 1][k % 3], "cache": "file"}, "blobs": [{"seed": 1, "len": 700}, {"seed": 2, "len": 10}], "obs": FS_OBS, "calls": calls, "_scenario": "multibyte:" + d})
+        k += 1
+    return hs
+
+
 def interplay_histories():
     """A written handle kept open across calls that remove or move its entry, and relative spellings of names
     ('a/b', './a/b', '.', '') in every position.  The open-handle histories are not evaluated on M1 (handles are modelled separately, File.v):
@@ -211,7 +243,8 @@ def interplay_histories():
     W = 0o100 | 2   # O_CREATE|O_RDWR
     hs = []
     for k, mid in enumerate(([{"op": "removeall", "name": "/d"}], [{"op": "remove", "name": "/d/e/f"}], [{"op": "removeall", "name": "/d/e"}, {"op": "mkdir", "name": "/d/e", "perm": 0o700}],
-                             [{"op": "remove", "name": "/d/e/f"}, {"op": "mkdir", "name": "/d/e/f", "perm": 0o755}])):
+                             [{"op": "remove", "name": "/d/e/f"}, {"op": "mkdir", "name": "/d/e/f", "perm": 0o755}],
+                             [{"op": "remove", "name": "/d/e/f"}, {"op": "mkdir", "name": "/d/e/f", "perm": 0o755}, {"op": "createfile", "name": "/d/e/f/child", "blob": 0}, {"op": "mkdir", "name": "/d/e/f/sub", "perm": 0o755}])):
         for fin in ("close", "sync+close"):
             calls = [{"op": "initialize"}, {"op": "mkdirall", "name": "/d/e", "perm": 0o755}, {"op": "open", "h": "a", "name": "/d/e/f", "flags": W, "perm": 0o644},
                      {"op": "write", "h": "a", "blob": 0}] + [dict(c) for c in mid]
@@ -248,6 +281,8 @@ def fs_stream(ctx):
     hs += interplay_histories()
     hs += subtree_histories()
     hs += roworder_histories()
+    hs += multibyte_histories()
+    hs += overwrite_histories()
     hs += fs_histories(ctx, 40 if quick else 400, 16 if quick else 40, ops_level=True)
     hs += fs_histories(ctx, 30 if quick else 300, 14 if quick else 30, ops_level=False)
     hs = replay_override(ctx, "history", hs, lambda h: dict(h, obs=FS_OBS))
